@@ -249,7 +249,7 @@ SUBS = [
         "fractional) / duration in s..min / k*dt / absolute Time; n 0..N incl. requests ending at the last sample; non-trivial = fractional t, "
         "or t+n == N, or n in {0, N}, or a duration/Time form", quick=4000, thorough=80000, pieces_quick=6),
     Sub("call_history", hist_case(), run_hist,
-        "2..5 snippet calls in one process, one ingredient changed per step (or none); each checked as above; non-trivial = >= 2 steps", quick=500,
+        "2..5 snippet calls in one process, one ingredient changed per step (or none); each checked as above; half of the histories run on ONE signal object re-assigned through its setters / in-place ufuncs between the calls, the others on fresh signals; non-trivial = >= 2 steps", quick=500,
         thorough=8000, pieces_quick=4),
     Sub("long_signals", long_case(), run_snip,
         "N in {1500..5000}, short and long snippets anywhere in the signal, fractional starts (numpy.fft complex128 interpolation of the WHOLE "
